@@ -19,7 +19,7 @@ RULE = ("cases = random specs pushed to depth>=2 with >=2 siblings per container
 ASSUMPTIONS = ["sub-value identity is `is`, falling back to (same type, ==, same repr)",
                "positions under a contains-window or an any-alternative are governed by a *set* of candidate sub-specs",
                "float tolerance zones are not judged (UNJUDGED)"]
-TIERS = {"quick": dict(shards=16, cases=3000), "thorough": dict(shards=16, cases=50000)}
+TIERS = {"quick": dict(shards=16, cases=6000), "thorough": dict(shards=16, cases=50000)}
 
 PROF = Profile(max_depth=4, nonfinite=False, unique_leaves=True, p_value=0.35,
                kinds={"none": 1, "bool": 2, "int": 7, "float": 6, "str": 10, "list": 14, "dict": 14, "any": 4,
